@@ -159,7 +159,7 @@ def check_asdict(tree, what, bad):
     ok = len(ps) == 1 and ps[0].end[0] == 'return'
     if ok:
         r = ps[0].end[1]
-        ok = (isinstance(r, tuple) and r[:1] == ('DICTCOMP',) and len(r) == 4 and r[3][2] == FIELDS
+        ok = (isinstance(r, tuple) and r[:1] == ('DICTCOMP',) and len(r) == 4 and r[3][2] == FIELDS and len(r[3]) == 3
               and r[1] == ('ITEM', r[3][1]) and r[2] == ('CALL', ('VAR', 'getattr'), SELF, ('ITEM', r[3][1])))
         if not ok and isinstance(r, tuple) and r[0] == 'OBJ':
             # the same dictionary built by an explicit loop over self._fields
@@ -206,6 +206,28 @@ def check_replace(tree, what, bad):
             continue
         new = ('CALL', ('ATTR', SELF, '__class__'), ('KW', None, KW))
         alt = ('CALL', ('CALL', ('VAR', 'type'), SELF), ('KW', None, KW))
+        # the missing fields may also be collected in a dictionary of their own and spread next to kw
+        r = p.end[1]
+        kept_form = False
+        if isinstance(r, tuple) and r[:1] == ('CALL',) and r[1] in (new[1], alt[1]) and len(r) == 4 \
+                and all(isinstance(a, tuple) and a[:2] == ('KW', None) for a in r[2:]):
+            spreads = [a[2] for a in r[2:]]
+            others = [x for x in spreads if x != KW]
+            if KW in spreads and len(others) == 1:
+                k = others[0]
+                if isinstance(k, tuple) and k[:1] == ('DICTCOMP',) and len(k) == 4 and k[3][2] == FIELDS \
+                        and len(k[3]) == 4:
+                    it = ('ITEM', k[3][1])
+                    cond = k[3][3]
+                    kept_form = k[1] == it and k[2] == ('CALL', ('VAR', 'getattr'), SELF, it) \
+                        and cond == ('CMP', ('NotIn',), it, KW)
+        if kept_form:
+            res = r
+            md = [s for s in steps if s[0] == 'E' and s[1] == 'call:update'
+                  and s[2] == ('ATTR', res, '_metadata') and s[3] == (('ATTR', SELF, '_metadata'),)]
+            if not md:
+                bad('C16-replace', f'{what}: _replace does not copy the position metadata onto the new object')
+            continue
         if p.end[1] not in (new, alt):
             bad('C16-replace', f'{what}: _replace returns {P.tfmt(p.end[1])}; the copy must be built through '
                                f'the class, self.__class__(**kw), so that it starts with fresh caches '
@@ -268,14 +290,17 @@ def check_node_classes(tree, what, bad):
         stores = {}
         base_init = False
         for node in ast.walk(init):
-            if isinstance(node, ast.Assign) and isinstance(node.targets[0], ast.Attribute) \
-                    and isinstance(node.targets[0].value, ast.Name) and node.targets[0].value.id == 'self':
-                stores[node.targets[0].attr] = ast.unparse(node.value)
             if isinstance(node, ast.Call) and ast.unparse(node.func) in ('ParsedObject.__init__', 'super().__init__'):
                 base_init = True
+        ips = P.Enumerator().function(init)
+        for ip in ips:
+            for e in all_steps(ip):
+                if e[0] == 'E' and e[1] == 'attrstore' and e[2][1] == SELF:
+                    stores.setdefault(e[2][2], set()).add(e[3])
         for f in fields:
-            if stores.get(f) != f:
-                bad('C14-field-tables', f'{what}: {name}.__init__ stores {stores.get(f)!r} in self.{f}')
+            if stores.get(f) != {('PARAM', f)}:
+                got = sorted(P.tfmt(x) for x in stores.get(f, ()))
+                bad('C14-field-tables', f'{what}: {name}.__init__ stores {got or None} in self.{f}')
         if not base_init:
             bad('C14-field-tables', f'{what}: {name}.__init__ does not initialise ParsedObject (metadata, hash cache)')
         # repr: name followed by the fields in order, each with !r
